@@ -307,8 +307,13 @@ def cbcheck_bounded(seed, n_it):
             bseto = np.arange(nq, nq + nb)
         else:
             bseto = np.arange(nb)
+        swapped = bool(it % 4 == 3)
+        if swapped:
+            # the two boundary grids listed in swapped order in `bseto` (the USET table stays in ascending DOF order)
+            bseto = np.hstack((bseto[6:], bseto[:6]))
         refnode = [0, 1][(it // 2) % 2]
-        bref = bseto[6 * refnode:6 * refnode + 6]
+        lo = min(bseto)
+        bref = np.arange(lo + 6 * refnode, lo + 6 * refnode + 6)
         uset = None
         for k_, i in enumerate(bn):
             uset = n2p.addgrid(uset, 10 * (k_ + 1), "b", 0, xyz[i], 0)
@@ -325,7 +330,8 @@ def cbcheck_bounded(seed, n_it):
         lc, mc = (1.0, 1.0) if conv is None else cb._get_conv_factors(conv)
         ref = xyz[bn[refnode]]
         # geometry: rigid motion about the reference point at the boundary grids (converted lengths)
-        rbg_want = np.vstack([np.block([[np.eye(3), -skew((xyz[i] - ref) * lc)], [np.zeros((3, 3)), np.eye(3)]]) for i in bn])
+        bn_out = bn[::-1] if swapped else bn
+        rbg_want = np.vstack([np.block([[np.eye(3), -skew((xyz[i] - ref) * lc)], [np.zeros((3, 3)), np.eye(3)]]) for i in bn_out])
         # the structure's 6x6 rigid-body mass about the reference point, converted units
         RBfull = np.vstack([np.block([[np.eye(3), -skew(xyz[i] - ref)], [np.zeros((3, 3)), np.eye(3)]]) for i in range(nn)])
         M6 = RBfull.T @ M @ RBfull
@@ -393,7 +399,7 @@ def run(tier, seed):
     run.bounded.append(dict(name="float: uset_convert on generated USET tables (rectangular, offset cylindrical and spherical output systems) - only location and origin rows "
                                  "scale; rbgeom_uset of the converted table == unit-converted rigid-body modes", evaluations=ev, failures=0 if cf is None else 1,
                             label="bounded (never counted as proved)"))
-    ev2, cf2 = cbcheck_bounded(seed, 6 if tier == "quick" else 60)
+    ev2, cf2 = cbcheck_bounded(seed, 8 if tier == "quick" else 60)
     run.bounded.append(dict(name="float: cbcheck on generated free 3-D structures (own Craig-Bampton reduction, 2 boundary grids, b-set first/last, reference = first/second grid, "
                                  "all/truncated modes, unit conversion): three rigid-body constructions coincide with geometry, mass properties of the structure, no grounding, "
                                  "effective-mass bookkeeping, fixed-base frequencies", evaluations=ev2, failures=0 if cf2 is None else 1, label="bounded (never counted as proved)"))
